@@ -1402,15 +1402,9 @@ Qed.
 End NoPanic.
 
 (** C19 (runtime half): no index, [unwrap] or subtraction of the model fails on tables that
-    pass [tables_ok], for tokens that have a name in [TERMINAL_NAMES].
-
-    Full statement aimed at (recovery enabled, the transcribed recovery functions):
-      forall fuel tb opts toks site, tables_ok tb = true ->
-        forallb (fun t => t <? tb_nterms tb) toks = true -> ll_run fuel tb opts toks <> Panic site.
-    Proved: the statement for every oracle that satisfies [oracle_ok] (all of them if recovery is
-    disabled).  Missing for the full statement: [oracle_ok faithful_oracle tb], i.e. that the
-    transcription of [restore_terminal_strings]/[minimal_token_difference]/[adjust_token_stream]
-    never runs out of its fuel, always finds an edge label, and only produces named tokens. *)
+    pass [tables_ok], for tokens that have a name in [TERMINAL_NAMES]: first for every oracle that
+    satisfies [oracle_ok] (all of them if recovery is disabled); [faithful_oracle_ok] and
+    [ll_no_panic] below instantiate it with the transcribed recovery functions. *)
 Theorem ll_no_panic_any_oracle : forall orc fuel tb opts toks site,
   tables_ok tb = true -> o_recovery opts = false \/ oracle_ok orc tb ->
   forallb (fun t => (t <? tb_nterms tb)%N) toks = true ->
@@ -1419,14 +1413,6 @@ Proof.
   intros orc fuel tb opts toks site Hok Hrec Hn H. apply tables_ok_split in Hok as [H1 H2].
   eapply (run_with_no_panic orc tb opts toks H1); [|exact Hn|exact H].
   destruct Hrec as [Hr|Hr]; [left; exact Hr|right; split; assumption].
-Qed.
-
-Theorem ll_no_panic_partial : forall fuel tb opts toks site,
-  tables_ok tb = true -> o_recovery opts = false ->
-  forallb (fun t => (t <? tb_nterms tb)%N) toks = true ->
-  ll_run fuel tb opts toks <> Panic site.
-Proof.
-  intros fuel tb opts toks site Hok Hr Hn. apply ll_no_panic_any_oracle; auto.
 Qed.
 
 (** A token type without a name does make the model (and the Rust) panic in an error path. *)
@@ -1557,24 +1543,24 @@ Proof.
   cbn [stack_of] in Hst. unfold ll_step in H. rewrite Hst in H |- *.
   destruct (f_pending f) as [|[t|a] pend]; cbn [map item_of app] in H |- *.
   - unfold end_production in H. rewrite He in H.
-    break_matches H; inversion H; subst c'; cbn [c_acts c_stack c_stream length nPE filter]; lia.
+    break_matches H; inversion H; subst c'; cbn [c_acts c_stack c_stream length]; unfold nPE; cbn [filter length]; lia.
   - destruct (s_buf (ensure tb (c_stream c))) as [|tok b] eqn:Eb; [discriminate|].
     destruct (N.eqb_spec (fst tok) t) as [Et|Et].
     + unfold consume in H. rewrite (ensure_id tb (ensure tb (c_stream c))) in H by apply ensure_length.
       rewrite Eb in H. inversion H; subst c'. cbn [c_acts c_stack c_stream nPE filter].
       rewrite remaining_ensure. rewrite <- (remaining_ensure (c_stream c)).
-      unfold remaining at 2. rewrite Eb. cbn [set_buf s_buf s_rest map app filter].
       assert (Hnzt : nz (fst tok) = true).
       { rewrite Et. unfold nz. apply negb_true_iff. apply N.eqb_neq.
         eapply (prod_terminal_nonzero tb Hok); [exact Hp|]. rewrite Hr.
         apply in_or_app. right. left. reflexivity. }
-      rewrite Hnzt. cbn [length]. unfold remaining. cbn [s_buf s_rest]. fold nPE. lia.
+      unfold remaining. cbn [set_buf s_buf s_rest]. rewrite Eb. cbn [map app filter].
+      rewrite Hnzt. cbn [length]. unfold nPE. cbn [filter]. lia.
     + apply htm_continue in H. destruct H as (H & _). congruence.
   - destruct (dfa_at tb a) as [d|]; [|discriminate].
     destruct (predict tb d (c_stream c)) as [[q| |e] s1] eqn:Ep; [| discriminate |].
     + apply push_production_shape in H as (_ & Ea & Es & En).
       cbn [set_stack set_stream c_acts c_stream c_stack] in Ea, Es, En.
-      rewrite Ea, Es, En, (remaining_predict _ _ _ _ Ep). cbn [nPE filter]. fold nPE. lia.
+      rewrite Ea, Es, En, (remaining_predict _ _ _ _ Ep). unfold nPE. cbn [filter]. lia.
     + destruct (handle_prediction_error orc tb opts _ a d) as [q c1|r' n c1|site] eqn:Eh; try discriminate.
       apply hpe_ok in Eh as (E1 & _). apply push_production_shape in H as (E & _).
       cbn [set_stack c_errs] in E. congruence.
@@ -2056,6 +2042,514 @@ Example ex_fuel_exact :
   ll_run (5 + 2 * 3 - 1) ex_tables ex_opts [5; 5; 7; 6; 6]%N = OutOfFuel.
 Proof. split; vm_compute; [discriminate|reflexivity]. Qed.
 
+(** ** The transcribed recovery functions satisfy [oracle_ok] *)
+From Parol Require Import Runtime.Levenshtein Runtime.LevFaithful.
+
+Lemma memN_spec x l : memN x l = true <-> In x l.
+Proof.
+  unfold memN. rewrite existsb_exists. split.
+  - intros (y & Hy & E). apply N.eqb_eq in E. subst. exact Hy.
+  - intros H. exists x. split; [exact H|apply N.eqb_refl].
+Qed.
+
+Lemma skipn_cons_tail {A} (l : list A) : forall n a l', skipn n l = a :: l' -> skipn (S n) l = l'.
+Proof.
+  induction l as [|x l IH]; intros n a l' H; [destruct n; discriminate|].
+  destruct n as [|n]; cbn [skipn] in *; [inversion H; reflexivity|].
+  apply IH in H. destruct l; exact H.
+Qed.
+
+Lemma skipn_cons_nth {A} (l : list A) : forall n a l', skipn n l = a :: l' -> nth_error l n = Some a.
+Proof.
+  induction l as [|x l IH]; intros n a l' H; [destruct n; discriminate|].
+  destruct n as [|n]; cbn [skipn nth_error] in *; [inversion H; reflexivity|]. eapply IH; exact H.
+Qed.
+
+Section AdjustOk.
+Variable tb : ll_tables.
+Let nm (t : N) : Prop := (t < tb_nterms tb)%N.
+
+Lemma replace_at_ok ty : nm ty -> forall buf idx b, named tb buf -> replace_at buf idx ty = Some b ->
+  named tb b /\ skipn (S idx) (map fst b) = skipn (S idx) (map fst buf).
+Proof.
+  intros Hty. induction buf as [|x buf IH]; intros idx b Hb H; [destruct idx; discriminate|].
+  inversion Hb as [|? ? Hx Hb']; subst.
+  destruct idx as [|idx]; cbn [replace_at] in H.
+  - destruct (fst x =? 0)%N; [discriminate|]. inversion H; subst b. split; [constructor; assumption|reflexivity].
+  - destruct (replace_at buf idx ty) as [b'|] eqn:E; [|discriminate]. inversion H; subst b.
+    destruct (IH idx b' Hb' E) as [H1 H2]. split; [constructor; assumption|].
+    cbn [map]. change (skipn (S (S idx)) (fst x :: map fst b')) with (skipn (S idx) (map fst b')).
+    rewrite H2. reflexivity.
+Qed.
+
+Lemma insert_at_ok ty : nm ty -> forall buf idx b, named tb buf -> insert_at buf idx ty = Some b ->
+  named tb b /\ skipn (S idx) (map fst b) = skipn idx (map fst buf).
+Proof.
+  intros Hty. induction buf as [|x buf IH]; intros idx b Hb H.
+  - destruct idx; cbn [insert_at] in H; [|discriminate]. inversion H; subst b.
+    split; [constructor; [exact Hty|constructor]|reflexivity].
+  - inversion Hb as [|? ? Hx Hb']; subst. destruct idx as [|idx]; cbn [insert_at] in H.
+    + inversion H; subst b. split; [constructor; assumption|reflexivity].
+    + destruct (insert_at buf idx ty) as [b'|] eqn:E; [|discriminate]. inversion H; subst b.
+      destruct (IH idx b' Hb' E) as [H1 H2]. split; [constructor; assumption|].
+      cbn [map]. change (skipn (S (S idx)) (fst x :: map fst b')) with (skipn (S idx) (map fst b')).
+      rewrite H2. reflexivity.
+Qed.
+
+Lemma remove_at_ok : forall buf idx b, named tb buf -> remove_at buf idx = Some b ->
+  named tb b /\ skipn idx (map fst b) = skipn (S idx) (map fst buf).
+Proof.
+  induction buf as [|x buf IH]; intros idx b Hb H; [destruct idx; discriminate|].
+  inversion Hb as [|? ? Hx Hb']; subst. destruct idx as [|idx]; cbn [remove_at] in H.
+  - inversion H; subst b. split; [exact Hb'|reflexivity].
+  - destruct (remove_at buf idx) as [b'|] eqn:E; [|discriminate]. inversion H; subst b.
+    destruct (IH idx b' Hb' E) as [H1 H2]. split; [constructor; assumption|].
+    cbn [map]. change (skipn (S idx) (fst x :: map fst b')) with (skipn idx (map fst b')).
+    rewrite H2. reflexivity.
+Qed.
+
+Lemma adjust_ops_ok exp : Forall nm exp -> forall ops buf idx eidx,
+  named tb buf -> script_ok ops (skipn idx (map fst buf)) (skipn eidx exp) = true ->
+  adjust_ops ops buf idx exp eidx <> AdjPanic /\
+  forall b, adjust_ops ops buf idx exp eidx = AdjOk b -> named tb b.
+Proof.
+  intros Hexp. induction ops as [|o ops IH]; intros buf idx eidx Hb Hs.
+  - cbn [adjust_ops]. split; [discriminate|]. intros b H. inversion H; subst. exact Hb.
+  - destruct o; cbn [script_ok adjust_ops] in *.
+    + (* Keep *)
+      destruct (skipn idx (map fst buf)) as [|a act] eqn:Ea; [discriminate|].
+      destruct (skipn eidx exp) as [|e ex] eqn:Ee; [discriminate|].
+      apply andb_prop in Hs as [_ Hs]. apply IH; [exact Hb|].
+      rewrite (skipn_cons_tail _ _ _ _ Ea), (skipn_cons_tail _ _ _ _ Ee). exact Hs.
+    + (* Insert *)
+      destruct (skipn eidx exp) as [|e ex] eqn:Ee; [discriminate|].
+      rewrite (skipn_cons_nth _ _ _ _ Ee).
+      assert (He : nm e).
+      { rewrite Forall_forall in Hexp. apply Hexp. eapply nth_error_In. eapply skipn_cons_nth. exact Ee. }
+      destruct (insert_at buf idx e) as [b'|] eqn:Ei; [|split; [discriminate|intros b H; discriminate]].
+      destruct (insert_at_ok e He _ _ _ Hb Ei) as [H1 H2]. apply IH; [exact H1|].
+      rewrite H2, (skipn_cons_tail _ _ _ _ Ee). exact Hs.
+    + (* Delete *)
+      destruct (skipn idx (map fst buf)) as [|a act] eqn:Ea; [discriminate|].
+      destruct (remove_at buf idx) as [b'|] eqn:Ei; [|split; [discriminate|intros b H; discriminate]].
+      destruct (remove_at_ok _ _ _ Hb Ei) as [H1 H2]. apply IH; [exact H1|].
+      rewrite H2, (skipn_cons_tail _ _ _ _ Ea). exact Hs.
+    + (* Replace *)
+      destruct (skipn idx (map fst buf)) as [|a act] eqn:Ea; [discriminate|].
+      destruct (skipn eidx exp) as [|e ex] eqn:Ee; [discriminate|].
+      rewrite (skipn_cons_nth _ _ _ _ Ee).
+      assert (He : nm e).
+      { rewrite Forall_forall in Hexp. apply Hexp. eapply nth_error_In. eapply skipn_cons_nth. exact Ee. }
+      destruct (replace_at buf idx e) as [b'|] eqn:Ei; [|split; [discriminate|intros b H; discriminate]].
+      destruct (replace_at_ok e He _ _ _ Hb Ei) as [H1 H2]. apply IH; [exact H1|].
+      rewrite H2, (skipn_cons_tail _ _ _ _ Ea), (skipn_cons_tail _ _ _ _ Ee). exact Hs.
+Qed.
+
+Lemma faithful_adjust_ok buf exp : named tb buf -> Forall nm exp ->
+  faithful_adjust buf exp <> AdjPanic /\ forall b, faithful_adjust buf exp = AdjOk b -> named tb b.
+Proof.
+  intros Hb He. unfold faithful_adjust.
+  destruct (lev_opt_spec (map fst buf) exp) as (ops & E & Hs & _). rewrite E.
+  apply adjust_ops_ok; assumption.
+Qed.
+
+End AdjustOk.
+
+Section ExpectedOk.
+Variable ts : list trans.
+
+Definition gstep (a b : N) : Prop := exists t, In t ts /\ t_from t = a /\ t_to t = b.
+
+Inductive gwalk : N -> list N -> Prop :=
+| gwalk_nil a : gwalk a []
+| gwalk_cons a b p : gstep a b -> gwalk b p -> gwalk a (b :: p).
+
+Lemma successors_fold a : forall l acc b,
+  In b (fold_left (fun acc t => if N.eqb (t_from t) a && negb (memN (t_to t) acc)
+                                then acc ++ [t_to t] else acc) l acc)
+  <-> In b acc \/ exists t, In t l /\ t_from t = a /\ t_to t = b.
+Proof.
+  induction l as [|t l IH]; intros acc b; cbn [fold_left].
+  - split; [auto|]. intros [H|(t & [] & _)]. exact H.
+  - rewrite IH. destruct (N.eqb_spec (t_from t) a) as [Ef|Ef]; cbn [andb].
+    + destruct (memN (t_to t) acc) eqn:M; cbn [negb].
+      * split.
+        -- intros [H|(t' & Hin & H1 & H2)]; [auto|]. right. exists t'. split; [right; exact Hin|auto].
+        -- intros [H|(t' & [->|Hin] & H1 & H2)]; [auto| |].
+           ++ left. subst b. apply memN_spec. exact M.
+           ++ right. exists t'. auto.
+      * split.
+        -- intros [H|(t' & Hin & H1 & H2)].
+           ++ apply in_app_or in H as [H|[<-|[]]]; [auto|]. right. exists t. split; [left; reflexivity|auto].
+           ++ right. exists t'. split; [right; exact Hin|auto].
+        -- intros [H|(t' & [->|Hin] & H1 & H2)].
+           ++ left. apply in_or_app. left. exact H.
+           ++ left. apply in_or_app. right. left. exact H2.
+           ++ right. exists t'. auto.
+    + split.
+      * intros [H|(t' & Hin & H1 & H2)]; [auto|]. right. exists t'. split; [right; exact Hin|auto].
+      * intros [H|(t' & [->|Hin] & H1 & H2)]; [auto|congruence|]. right. exists t'. auto.
+Qed.
+
+Lemma successors_spec a b : In b (successors ts a) <-> gstep a b.
+Proof.
+  unfold successors. rewrite successors_fold. unfold gstep. split.
+  - intros [[]|H]. exact H.
+  - intros H. right. exact H.
+Qed.
+
+Definition ll_f (a b : N) (acc : option N) (t : trans) : option N :=
+  if N.eqb (t_from t) a && N.eqb (t_to t) b then Some (t_tok t) else acc.
+
+Lemma last_label_nomatch a b : forall l acc,
+  existsb (fun t => N.eqb (t_from t) a && N.eqb (t_to t) b) l = false ->
+  fold_left (ll_f a b) l acc = acc.
+Proof.
+  induction l as [|t l IH]; intros acc H; [reflexivity|].
+  cbn [existsb] in H. apply orb_false_iff in H as [H1 H2].
+  cbn [fold_left]. unfold ll_f at 2. rewrite H1. apply IH. exact H2.
+Qed.
+
+Lemma last_label_fold a b : forall l acc,
+  existsb (fun t => N.eqb (t_from t) a && N.eqb (t_to t) b) l = true ->
+  exists t, In t l /\ fold_left (ll_f a b) l acc = Some (t_tok t).
+Proof.
+  induction l as [|t l IH]; intros acc H; [discriminate|].
+  cbn [fold_left]. destruct (existsb (fun t => N.eqb (t_from t) a && N.eqb (t_to t) b) l) eqn:El.
+  - destruct (IH (ll_f a b acc t) eq_refl) as (t' & Hin & E). exists t'. split; [right; exact Hin|exact E].
+  - cbn [existsb] in H. rewrite El, orb_false_r in H.
+    rewrite (last_label_nomatch a b l _ El). unfold ll_f. rewrite H. exists t. split; [left; reflexivity|reflexivity].
+Qed.
+
+Lemma last_label_some a b : gstep a b ->
+  exists t, In t ts /\ last_label ts a b = Some (t_tok t).
+Proof.
+  intros (t & Hin & H1 & H2). unfold last_label. apply (last_label_fold a b ts None).
+  apply existsb_exists. exists t. split; [exact Hin|]. rewrite H1, H2, !N.eqb_refl. reflexivity.
+Qed.
+
+Lemma last_label_in a b lab : last_label ts a b = Some lab -> exists t, In t ts /\ t_tok t = lab.
+Proof.
+  unfold last_label. change (fun acc t => if N.eqb (t_from t) a && N.eqb (t_to t) b then Some (t_tok t) else acc)
+    with (ll_f a b).
+  destruct (existsb (fun t => N.eqb (t_from t) a && N.eqb (t_to t) b) ts) eqn:El.
+  - destruct (last_label_fold a b ts None El) as (t & Hin & E). rewrite E. intros H. inversion H. eauto.
+  - rewrite (last_label_nomatch a b ts None El). discriminate.
+Qed.
+
+Lemma last_default {A} (l : list A) d d' : l <> [] -> last l d = last l d'.
+Proof.
+  induction l as [|x l IH]; intros H; [congruence|]. destruct l as [|y l]; [reflexivity|].
+  change (last (x :: y :: l) d) with (last (y :: l) d). change (last (x :: y :: l) d') with (last (y :: l) d').
+  apply IH. discriminate.
+Qed.
+
+Lemma gwalk_snoc : forall p a b, gwalk a p -> gstep (last p a) b -> gwalk a (p ++ [b]).
+Proof.
+  induction p as [|c p IH]; intros a b Hw Hs.
+  - cbn in *. constructor; [exact Hs|constructor].
+  - inversion Hw as [|? ? ? Hac Hcp]; subst. cbn [app]. constructor; [exact Hac|].
+    apply IH; [exact Hcp|]. destruct p as [|n p]; [exact Hs|].
+    rewrite (last_default (n :: p) c a) by discriminate. exact Hs.
+Qed.
+
+Lemma last_occ b : forall p a, gwalk a p -> In b p ->
+  exists p1 p2, p = p1 ++ b :: p2 /\ ~ In b p2 /\ gwalk b p2.
+Proof.
+  induction p as [|c q IH]; intros a Hw Hin; [destruct Hin|].
+  inversion Hw as [|? ? ? Hac Hcq]; subst.
+  destruct (in_dec N.eq_dec b q) as [Hq|Hq].
+  - destruct (IH c Hcq Hq) as (p1 & p2 & E & Hn & Hw2). exists (c :: p1), p2. rewrite E. auto.
+  - destruct Hin as [->|Hin]; [|contradiction]. exists [], q. auto.
+Qed.
+
+Lemma last_app_cons {A} (l1 : list A) x l2 d : last (l1 ++ x :: l2) d = last (x :: l2) d.
+Proof.
+  induction l1 as [|y l1 IH]; [reflexivity|]. cbn [app]. rewrite <- IH.
+  destruct (l1 ++ x :: l2) eqn:E; [destruct l1; discriminate|reflexivity].
+Qed.
+
+(** Reachability as computed by [reach1]. *)
+Definition reached (x : N) : Prop := exists p, p <> [] /\ gwalk 0%N p /\ last p 0%N = x.
+
+Lemma expand_sound : forall l r, incl l ts -> (forall x, In x r -> reached x) ->
+  forall x, In x (fold_left (fun acc t =>
+               if (N.eqb (t_from t) 0 || memN (t_from t) acc) && negb (memN (t_to t) acc)
+               then t_to t :: acc else acc) l r) -> reached x.
+Proof.
+  induction l as [|t l IH]; intros r Hi Hr x Hx; [apply Hr; exact Hx|].
+  cbn [fold_left] in Hx. eapply IH; [intros y Hy; apply Hi; right; exact Hy| |exact Hx].
+  intros y Hy. destruct ((N.eqb (t_from t) 0 || memN (t_from t) r) && negb (memN (t_to t) r)) eqn:C;
+    [|apply Hr; exact Hy].
+  destruct Hy as [<-|Hy]; [|apply Hr; exact Hy].
+  apply andb_prop in C as [C _]. assert (Ht : In t ts) by (apply Hi; left; reflexivity).
+  apply orb_prop in C as [C|C].
+  - apply N.eqb_eq in C. exists [t_to t]. split; [discriminate|]. split; [|reflexivity].
+    constructor; [exists t; auto|constructor].
+  - apply memN_spec in C. destruct (Hr _ C) as (p & Hne & Hw & Hl).
+    exists (p ++ [t_to t]). split; [destruct p; discriminate|]. split.
+    + apply gwalk_snoc; [exact Hw|]. exists t. split; [exact Ht|]. split; [|reflexivity].
+      rewrite <- Hl. destruct p; [congruence|reflexivity].
+    + apply last_last.
+Qed.
+
+Lemma iter_expand_sound n : forall r, (forall x, In x r -> reached x) ->
+  forall x, In x (iter_expand n ts r) -> reached x.
+Proof.
+  induction n as [|n IH]; intros r Hr x Hx; [apply Hr; exact Hx|].
+  cbn [iter_expand] in Hx. eapply IH; [|exact Hx].
+  intros y Hy. eapply (expand_sound ts r); [apply incl_refl|exact Hr|exact Hy].
+Qed.
+
+Lemma reach1_sound x : In x (reach1 ts) -> reached x.
+Proof. unfold reach1. apply iter_expand_sound. intros y []. Qed.
+
+(** *** The search [sp_go] / [simple_paths] *)
+Section Go.
+Variable rec : N -> list N -> list N -> option (list (list N)).
+Variable cur : N.
+Variable visited str : list N.
+
+Lemma go_empty : forall succs, sp_go rec ts cur visited str succs = Some [] ->
+  forall s, In s succs -> ~ In s visited ->
+    state_accepting ts s = false /\ exists lab, rec s (s :: visited) (lab :: str) = Some [].
+Proof.
+  induction succs as [|s0 rest IH]; intros H s Hin Hnv; [destruct Hin|].
+  cbn [sp_go] in H. destruct (memN s0 visited) eqn:M.
+  - destruct Hin as [<-|Hin]; [apply memN_spec in M; contradiction|]. apply IH; assumption.
+  - destruct (last_label ts cur s0) as [lab|]; [|discriminate].
+    destruct (rec s0 (s0 :: visited) (lab :: str)) as [sub|] eqn:Es; [|discriminate].
+    destruct (sp_go rec ts cur visited str rest) as [r|] eqn:Er; [|discriminate].
+    injection H as E. apply app_eq_nil in E as [E1 E2]. apply app_eq_nil in E2 as [E2 E3]. subst sub r.
+    destruct Hin as [<-|Hin].
+    + split; [destruct (state_accepting ts s0); [discriminate|reflexivity]|exists lab; exact Es].
+    + apply IH; auto.
+Qed.
+
+Lemma go_total : forall succs,
+  (forall s, In s succs -> (exists lab, last_label ts cur s = Some lab) /\
+                           (~ In s visited -> forall st, rec s (s :: visited) st <> None)) ->
+  sp_go rec ts cur visited str succs <> None.
+Proof.
+  induction succs as [|s0 rest IH]; intros H; cbn [sp_go]; [discriminate|].
+  assert (Hrest : sp_go rec ts cur visited str rest <> None).
+  { apply IH. intros s Hs. apply H. right. exact Hs. }
+  destruct (memN s0 visited) eqn:M; [exact Hrest|].
+  destruct (H s0 (or_introl eq_refl)) as [(lab & El) Hr]. rewrite El.
+  assert (Hnv : ~ In s0 visited).
+  { intros Hi. apply memN_spec in Hi. congruence. }
+  specialize (Hr Hnv (lab :: str)).
+  destruct (rec s0 (s0 :: visited) (lab :: str)); [|congruence].
+  destruct (sp_go rec ts cur visited str rest); [discriminate|congruence].
+Qed.
+
+Lemma go_named (P : N -> Prop) :
+  (forall t, In t ts -> P (t_tok t)) -> Forall P str ->
+  (forall s v st l, rec s v st = Some l -> Forall P st -> forall x, In x l -> Forall P x) ->
+  forall succs l, sp_go rec ts cur visited str succs = Some l -> forall x, In x l -> Forall P x.
+Proof.
+  intros Hts Hstr Hrec. induction succs as [|s0 rest IH]; intros l H x Hx; cbn [sp_go] in H.
+  - inversion H; subst. destruct Hx.
+  - destruct (memN s0 visited); [eapply IH; eassumption|].
+    destruct (last_label ts cur s0) as [lab|] eqn:El; [|discriminate].
+    destruct (rec s0 (s0 :: visited) (lab :: str)) as [sub|] eqn:Es; [|discriminate].
+    destruct (sp_go rec ts cur visited str rest) as [r|] eqn:Er; [|discriminate].
+    inversion H; subst l; clear H.
+    assert (Hlab : Forall P (lab :: str)).
+    { constructor; [|exact Hstr]. apply last_label_in in El as (t & Hin & <-). apply Hts. exact Hin. }
+    apply in_app_or in Hx as [Hx|Hx].
+    + destruct (state_accepting ts s0); [|destruct Hx]. destruct Hx as [<-|[]].
+      change (Forall P (rev (lab :: str))). apply Forall_rev. exact Hlab.
+    + apply in_app_or in Hx as [Hx|Hx]; [eapply Hrec; eassumption|eapply IH; [reflexivity|exact Hx]].
+Qed.
+
+End Go.
+
+Lemma sp_named (P : N -> Prop) : (forall t, In t ts -> P (t_tok t)) ->
+  forall fuel cur visited str l, simple_paths fuel ts cur visited str = Some l -> Forall P str ->
+  forall x, In x l -> Forall P x.
+Proof.
+  intros Hts. induction fuel as [|f IH]; intros cur visited str l H Hstr x Hx; [discriminate|].
+  cbn [simple_paths] in H. eapply go_named; eassumption.
+Qed.
+
+Lemma sp_empty : forall fuel cur visited str,
+  simple_paths fuel ts cur visited str = Some [] ->
+  forall p, gwalk cur p -> p <> [] -> (forall s, In s p -> ~ In s visited) ->
+  state_accepting ts (last p 0%N) = false.
+Proof.
+  induction fuel as [|f IH]; intros cur visited str H p Hw Hne Hav; [discriminate|].
+  cbn [simple_paths] in H. destruct p as [|b q]; [congruence|]. clear Hne.
+  inversion Hw as [|? ? ? Hcb Hbq]; subst.
+  assert (Hb : ~ In b visited) by (apply Hav; left; reflexivity).
+  destruct (go_empty _ _ _ _ _ H b (proj2 (successors_spec cur b) Hcb) Hb) as [Hacc (lab & Hsub)].
+  assert (Hq : forall q', gwalk b q' -> ~ In b q' -> (forall s, In s q' -> In s q) ->
+                          last (b :: q') 0%N = last (b :: q) 0%N -> state_accepting ts (last (b :: q) 0%N) = false).
+  { intros q' Hw' Hnb Hsub' Hl. rewrite <- Hl. destruct q' as [|c q'']; [exact Hacc|].
+    change (last (b :: c :: q'') 0%N) with (last (c :: q'') 0%N).
+    apply (IH b (b :: visited) (lab :: str) Hsub (c :: q'') Hw'); [discriminate|].
+    intros s Hs [<-|Hv]; [contradiction|]. apply (Hav s); [right; apply Hsub'; exact Hs|exact Hv]. }
+  destruct (in_dec N.eq_dec b q) as [Hin|Hin].
+  - destruct (last_occ b q b Hbq Hin) as (p1 & p2 & E & Hn2 & Hw2).
+    apply (Hq p2 Hw2 Hn2).
+    + intros s Hs. rewrite E. apply in_or_app. right. right. exact Hs.
+    + rewrite E. change (b :: p1 ++ b :: p2) with ((b :: p1) ++ b :: p2). rewrite last_app_cons. reflexivity.
+  - apply (Hq q Hbq Hin); auto.
+Qed.
+
+(** Fuel: the search depth is bounded by the number of distinct target states not yet visited. *)
+Definition gstates : list N := nodup N.eq_dec (map t_to ts).
+Definition unvisited (visited : list N) (l : list N) : list N := filter (fun s => negb (memN s visited)) l.
+
+Lemma unvisited_le s visited l : length (unvisited (s :: visited) l) <= length (unvisited visited l).
+Proof.
+  induction l as [|x l IH]; [reflexivity|]. unfold unvisited in *. cbn [filter].
+  unfold memN at 1. cbn [existsb]. fold (memN x visited).
+  destruct (N.eqb x s); cbn [orb negb]; destruct (memN x visited); cbn [negb length]; lia.
+Qed.
+
+Lemma unvisited_lt s visited : forall l, NoDup l -> In s l -> ~ In s visited ->
+  length (unvisited (s :: visited) l) < length (unvisited visited l).
+Proof.
+  induction l as [|x l IH]; intros Hnd Hin Hnv; [destruct Hin|].
+  inversion Hnd as [|? ? Hx Hnd']; subst. unfold unvisited in *. cbn [filter].
+  unfold memN at 1. cbn [existsb]. fold (memN x visited).
+  destruct Hin as [->|Hin].
+  - rewrite N.eqb_refl. cbn [orb negb].
+    assert (M : memN s visited = false).
+    { destruct (memN s visited) eqn:M; [apply memN_spec in M; contradiction|reflexivity]. }
+    rewrite M. cbn [negb length]. pose proof (unvisited_le s visited l) as Hle. unfold unvisited in Hle. lia.
+  - specialize (IH Hnd' Hin Hnv).
+    destruct (N.eqb x s); cbn [orb negb]; destruct (memN x visited); cbn [negb length]; lia.
+Qed.
+
+Lemma sp_total : forall fuel cur visited str,
+  length (unvisited visited gstates) < fuel -> simple_paths fuel ts cur visited str <> None.
+Proof.
+  induction fuel as [|f IH]; intros cur visited str Hm; [lia|].
+  cbn [simple_paths]. apply go_total. intros s Hs. apply successors_spec in Hs.
+  split.
+  - destruct (last_label_some cur s Hs) as (t & _ & E). eauto.
+  - intros Hnv st. apply IH.
+    assert (Hst : In s gstates).
+    { unfold gstates. apply nodup_In. destruct Hs as (t & Hin & _ & <-). apply in_map. exact Hin. }
+    pose proof (unvisited_lt s visited gstates (NoDup_nodup _ _) Hst Hnv). lia.
+Qed.
+
+Lemma gstates_length : length gstates <= length ts.
+Proof.
+  unfold gstates. rewrite <- (map_length t_to ts). apply NoDup_incl_length; [apply NoDup_nodup|].
+  intros x Hx. apply nodup_In in Hx. exact Hx.
+Qed.
+
+Lemma unvisited_length visited l : length (unvisited visited l) <= length l.
+Proof. unfold unvisited. induction l as [|x l IH]; cbn [filter length]; [lia|]. destruct (negb _); cbn [length]; lia. Qed.
+
+End ExpectedOk.
+
+Lemma set_insert_in x y l : In x (set_insert y l) -> x = y \/ In x l.
+Proof.
+  induction l as [|z l IH]; cbn [set_insert]; [intros [<-|[]]; auto|].
+  destruct (lex_compare y z); intros H.
+  - auto.
+  - destruct H as [<-|H]; auto.
+  - destruct H as [<-|H]; [right; left; reflexivity|]. destruct (IH H); auto. right. right. assumption.
+Qed.
+
+Lemma set_insert_nonempty y l : set_insert y l <> [].
+Proof. destruct l as [|z l]; cbn [set_insert]; [discriminate|]. destruct (lex_compare y z); discriminate. Qed.
+
+Lemma set_fold_in : forall l acc x, In x (fold_left (fun acc y => set_insert y acc) l acc) -> In x l \/ In x acc.
+Proof.
+  induction l as [|y l IH]; intros acc x H; cbn [fold_left] in H; [auto|].
+  apply IH in H as [H|H]; [left; right; exact H|]. apply set_insert_in in H as [->|H]; [left; left; reflexivity|auto].
+Qed.
+
+Lemma set_fold_nonempty : forall l acc, (l <> [] \/ acc <> []) -> fold_left (fun acc y => set_insert y acc) l acc <> [].
+Proof.
+  induction l as [|y l IH]; intros acc H; cbn [fold_left]; [destruct H; congruence|].
+  apply IH. right. apply set_insert_nonempty.
+Qed.
+
+Lemma min_diff_some sc : forall strs best, (strs <> [] \/ best <> None) ->
+  exists d s, min_diff sc strs best = Some (Some (d, s)) /\ (In s strs \/ exists d', best = Some (d', s)).
+Proof.
+  induction strs as [|s0 strs IH]; intros best H; cbn [min_diff].
+  - destruct H as [H|H]; [congruence|]. destruct best as [[d s]|]; [|congruence]. exists d, s. eauto.
+  - destruct (lev_opt_spec sc s0) as (ops & E & _). rewrite E.
+    match goal with |- context [min_diff sc strs ?b] => set (best' := b) end.
+    assert (Hb : exists d s, best' = Some (d, s) /\ (s = s0 \/ exists d', best = Some (d', s))).
+    { unfold best'. destruct best as [[m ms]|]; [|eauto 6].
+      destruct (D sc s0 <? m); [eauto 6|].
+      destruct ((D sc s0 =? m) && memN 0 ms && negb (memN 0 s0)); eauto 7. }
+    destruct Hb as (d1 & s1 & Eb & Hs1).
+    assert (Hbn : best' <> None) by (rewrite Eb; discriminate).
+    destruct (IH best' (or_intror Hbn)) as (d & s & Em & Hs).
+    exists d, s. split; [exact Em|].
+    destruct Hs as [Hs|(d' & Hs)]; [left; right; exact Hs|].
+    rewrite Eb in Hs. inversion Hs; subst. destruct Hs1 as [->|Hs1]; [left; left; reflexivity|right; exact Hs1].
+Qed.
+
+Lemma faithful_expected_ok tb d sc :
+  forallb (fun t => (t_tok t <? tb_nterms tb)%N) (transitions d) = true ->
+  restore_status d = RS_NonEmpty ->
+  exists e, faithful_expected d sc = Some e /\ Forall (fun t => (t < tb_nterms tb)%N) e.
+Proof.
+  intros Hnm Hrs. set (ts := transitions d) in *.
+  assert (Hts : forall t, In t ts -> (t_tok t < tb_nterms tb)%N).
+  { intros t Ht. rewrite forallb_forall in Hnm. apply N.ltb_lt. apply Hnm. exact Ht. }
+  unfold faithful_expected, restore_terminal_strings. fold ts.
+  destruct (simple_paths (S (S (length ts))) ts 0 [0%N] []) as [l0|] eqn:Esp.
+  2:{ exfalso. eapply (sp_total ts); [|exact Esp].
+      pose proof (unvisited_length [0%N] (gstates ts)). pose proof (gstates_length ts). lia. }
+  assert (Hl0 : l0 <> []).
+  { intros ->. unfold restore_status in Hrs. fold ts in Hrs.
+    destruct (negb (forallb _ ts)); [discriminate|].
+    destruct (negb (negb (Z.eqb (prod0 d) INVALID_PROD)) && state_accepting ts 0); [discriminate|].
+    destruct (existsb _ (reach1 ts)) eqn:Ex; [|discriminate].
+    apply existsb_exists in Ex as (s & Hs & Hc). apply andb_prop in Hc as [Hs0 Hacc].
+    apply negb_true_iff in Hs0. apply N.eqb_neq in Hs0.
+    destruct (reach1_sound ts s Hs) as (p & Hne & Hw & Hl).
+    assert (Hgoal : forall p2, gwalk ts 0%N p2 -> ~ In 0%N p2 -> last (0%N :: p2) 0%N = s -> False).
+    { intros p2 Hw2 Hn2 Hl2. destruct p2 as [|c p2]; [cbn in Hl2; congruence|].
+      change (last (0%N :: c :: p2) 0%N) with (last (c :: p2) 0%N) in Hl2.
+      pose proof (sp_empty ts _ _ _ _ Esp (c :: p2) Hw2) as He. rewrite Hl2 in He.
+      rewrite He in Hacc; [discriminate|discriminate|].
+      intros x Hx [<-|[]]. contradiction. }
+    destruct (in_dec N.eq_dec 0%N p) as [Hin|Hin].
+    - destruct (last_occ ts 0%N p 0%N Hw Hin) as (p1 & p2 & E & Hn2 & Hw2).
+      apply (Hgoal p2 Hw2 Hn2). rewrite <- Hl, E, last_app_cons. reflexivity.
+    - apply (Hgoal p Hw Hin). rewrite <- Hl. destruct p; [congruence|reflexivity]. }
+  set (strs := fold_left (fun acc x => set_insert x acc) l0 []).
+  assert (Hstrs : strs <> []) by (apply set_fold_nonempty; left; exact Hl0).
+  destruct (min_diff_some sc strs None (or_introl Hstrs)) as (dd & s & Em & Hs). rewrite Em.
+  exists s. split; [reflexivity|].
+  destruct Hs as [Hs|(d' & Hs)]; [|discriminate].
+  apply set_fold_in in Hs as [Hs|[]].
+  apply (sp_named ts (fun t => (t < tb_nterms tb)%N) Hts _ _ _ _ _ Esp (Forall_nil _) s Hs).
+Qed.
+
+Theorem faithful_oracle_ok tb : tables_ok_basic tb = true -> oracle_ok faithful_oracle tb.
+Proof.
+  intros Hok. split.
+  - intros d sc Hd Hrs. cbn [faithful_oracle o_expected].
+    apply faithful_expected_ok; [|exact Hrs].
+    apply In_nth_error in Hd as (n & Hn).
+    assert (Hda : dfa_at tb (N.of_nat n) = Some d) by (unfold dfa_at; rewrite Nat2N.id; exact Hn).
+    eapply dfa_tokens_named. eapply dfa_at_ok; eassumption.
+  - intros buf e Hb He. cbn [faithful_oracle o_adjust]. apply faithful_adjust_ok; assumption.
+Qed.
+
+(** C19, runtime half, in full: the model never panics on tables that pass [tables_ok] and named
+    tokens, recovery enabled or not. *)
+Theorem ll_no_panic : forall fuel tb opts toks site,
+  tables_ok tb = true -> forallb (fun t => (t <? tb_nterms tb)%N) toks = true ->
+  ll_run fuel tb opts toks <> Panic site.
+Proof.
+  intros fuel tb opts toks site Hok Hn. apply ll_no_panic_any_oracle; [exact Hok| |exact Hn].
+  right. apply faithful_oracle_ok. apply tables_ok_split in Hok as [H _]. exact H.
+Qed.
+
 (** A sentence can only contain terminals of the productions, hence no EOI; so the side
     condition [forallb significant toks] only excludes the skip-token types 1..4 and 65534. *)
 
@@ -2068,7 +2562,23 @@ Print Assumptions ll_actions_postorder.
 Print Assumptions ll_actions_numbers.
 Print Assumptions ll_trim_events.
 Print Assumptions ll_no_panic_any_oracle.
-Print Assumptions ll_no_panic_partial.
+Print Assumptions faithful_oracle_ok.
+Print Assumptions ll_no_panic.
 Print Assumptions ll_run_fuel_mono.
 Print Assumptions ll_fuel.
 Print Assumptions ll_complete.
+
+(** ** The hypotheses of the main theorems are satisfiable *)
+Example ex_sound_hyps :
+  tables_ok ex_tables = true /\
+  exists acts evs, ll_run 100 ex_tables ex_opts_rec [5; 5; 7; 6; 6]%N = Accepted acts evs.
+Proof. split; [vm_compute; reflexivity|]. eexists. eexists. vm_compute. reflexivity. Qed.
+
+Example ex_no_panic_hyps :
+  forallb (fun t => (t <? tb_nterms ex_tables)%N) [5; 9; 6]%N = true /\
+  ll_run 100 ex_tables ex_opts_rec [5; 9; 6]%N = Rejected RSyntaxErrors 3.
+Proof. split; vm_compute; reflexivity. Qed.
+
+(** The witness of [ll_recovery_sound_refuted] fails exactly the recovery caveat of [tables_ok]. *)
+Example refute_not_la_wf : tables_ok_basic refute_tables = true /\ la_wf refute_tables = false.
+Proof. split; vm_compute; reflexivity. Qed.
